@@ -312,7 +312,9 @@ Section WithFile.
     inv_lines : forall k lp, dict_get Z.eqb (lines s) k = Some lp -> lp_ok k lp;
     inv_secmap : forall m, e_secmap s = Some m -> m = secmap_spec F;
     inv_symmap : forall m, e_symmap s = Some m -> m = symmap_spec F;
-    inv_numtags : e_numtags s = -1 \/ count_tags (f_dyns F) = Some (e_numtags s)
+    inv_numtags : e_numtags s = -1 \/ count_tags (f_dyns F) = Some (e_numtags s);
+    (* every unit object is the one the unit cache holds for its offset (identity) *)
+    inv_cuheap : forall id c, nth_error (cus s) id = Some c -> In (c_off c, id) (combine (cu_keys s) (cu_objs s))
   }.
 
   Lemma Inv_init n : Inv (init_state n).
@@ -328,11 +330,12 @@ Section WithFile.
     - intros m H; discriminate.
     - intros m H; discriminate.
     - left. reflexivity.
+    - intros [|id] c H; discriminate.
   Qed.
 
   Lemma Inv_set_cur s c : Inv s -> length c = length (cur s) -> Inv (set_cur s c).
   Proof.
-    intros [H1 H2 H3 H4 H5 H6 H7 H8 H9 H10] Hl. constructor; cbn; auto. congruence.
+    intros [H1 H2 H3 H4 H5 H6 H7 H8 H9 H10 H11] Hl. constructor; cbn; auto. congruence.
   Qed.
 
   (* ---- objects persist; their immutable part does not change; generator frames are only changed
@@ -411,6 +414,10 @@ Section WithFile.
   (* c is the offset of a child of the entry at p in the unit at u *)
   Definition is_kid (u p c : Z) : Prop :=
     exists ud, unit_at F u = Some ud /\ In c (kids_of (ud_entries ud) p).
+  (* the entry whose children a suspended iter_DIE_children generator enumerates *)
+  Definition cframe_die (cf : cframe) : option nat :=
+    match cf with CStart d => Some d | CYield d _ _ => Some d | CDone => None end.
+
   Inductive cframe_rel (s : state) (u : Z) : cframe -> acframe -> Prop :=
   | CR_start die p : die_at s die u p -> cframe_rel s u (CStart die) (ACStart p)
   | CR_yield die child p c : die_at s die u p -> die_at s child u c -> is_kid u p c ->
@@ -420,9 +427,20 @@ Section WithFile.
   Inductive level_rel (s : state) (u : Z) : slevel -> Z * apc -> Prop :=
   | LR_start die o : die_at s die u o -> level_rel s u (mk_sl die PStart) (o, APStart)
   | LR_die die o : die_at s die u o -> level_rel s u (mk_sl die PDie) (o, APDie)
-  | LR_kids die o cf acf : die_at s die u o -> cframe_rel s u cf acf ->
+  | LR_kids die o cf acf : die_at s die u o -> cframe_rel s u cf acf -> cframe_die cf = Some die ->
       level_rel s u (mk_sl die (PKids cf)) (o, APKids acf)
   | LR_term die o : die_at s die u o -> level_rel s u (mk_sl die PTerm) (o, APTerm).
+
+  (* the levels of a suspended iter_DIEs generator are a chain of nodes, each a child of the next *)
+  Fixpoint nchain (ns : list node) : Prop :=
+    match ns with
+    | a :: ((b :: _) as r) => In a (node_kids b) /\ nchain r
+    | _ => True
+    end.
+  Definition stack_nodes (u : Z) (ast : list (Z * apc)) : Prop :=
+    ast = [] \/
+    exists ud ns, unit_at F u = Some ud /\ map node_off ns = map fst ast /\ nchain ns /\
+                  last ns (ud_tree ud) = ud_tree ud.
 
   Inductive frame_rel (s : state) : frame -> aframe -> Prop :=
   | FR_empty : frame_rel s FEmpty AFEmpty
@@ -431,7 +449,8 @@ Section WithFile.
   | FR_siblings_new u self o : die_at s self u o -> frame_rel s (FSiblings self None) (AFSiblings u o None)
   | FR_siblings u self o cf acf : die_at s self u o -> cframe_rel s u cf acf ->
       frame_rel s (FSiblings self (Some cf)) (AFSiblings u o (Some acf))
-  | FR_subtree u st ast : Forall2 (level_rel s u) st ast -> frame_rel s (FSubtree st) (AFSubtree u ast)
+  | FR_subtree u st ast : Forall2 (level_rel s u) st ast -> stack_nodes u ast ->
+      frame_rel s (FSubtree st) (AFSubtree u ast)
   | FR_sections i n : 0 <= i -> (n = None \/ n = Some (f_shnum F)) -> frame_rel s (FSections i n) (AFSections i)
   | FR_symbols i n : 0 <= i -> has_symtab F = true -> (n = None \/ n = Some (f_sym_count F)) ->
       frame_rel s (FSymbols i n) (AFSymbols i)
@@ -450,7 +469,7 @@ Section WithFile.
   Lemma frame_rel_ext s s' f af : ext s s' -> frame_rel s f af -> frame_rel s' f af.
   Proof.
     intros He H. inversion H; subst; try (constructor; eauto using die_at_ext, cframe_rel_ext; fail).
-    constructor. eapply Forall2_imp; [|eassumption]. intros a b Hab. eapply level_rel_ext; eauto.
+    constructor; [|assumption]. eapply Forall2_imp; [|eassumption]. intros a b Hab. eapply level_rel_ext; eauto.
   Qed.
 
   Lemma frames_rel_ext s s' afs : ext s s' -> frames_rel s afs -> frames_rel s' afs.
@@ -468,7 +487,7 @@ Section WithFile.
     assert (Hc : forall u cf acf, cframe_rel s u cf acf -> cframe_rel s' u cf acf).
     { intros u cf acf H0. inversion H0; subst; constructor; auto. }
     inversion H; subst; try (constructor; auto; fail).
-    constructor. eapply Forall2_imp; [|eassumption]. intros a b Hab.
+    constructor; [|assumption]. eapply Forall2_imp; [|eassumption]. intros a b Hab.
     inversion Hab; subst; constructor; auto.
   Qed.
 
@@ -486,7 +505,7 @@ Section WithFile.
   Qed.
 
   Lemma Inv_set_frames s fr : Inv s -> Inv (set_frames s fr).
-  Proof. intros [H1 H2 H3 H4 H5 H6 H7 H8 H9 H10]. constructor; cbn; auto. Qed.
+  Proof. intros [H1 H2 H3 H4 H5 H6 H7 H8 H9 H10 H11]. constructor; cbn; auto. Qed.
 
   Lemma frames_rel_set_slot s afs slot f af :
     frames_rel s afs -> frame_rel s f af ->
